@@ -53,6 +53,15 @@ theorem css_writer_retokenises : type_of% @Verif.Proofs.C09Css.css_writer_retoke
 theorem css_writer_retokenises_counterexample : type_of% @Verif.Proofs.C09Css.css_writer_retokenises_counterexample :=
   @Verif.Proofs.C09Css.css_writer_retokenises_counterexample
 
+/-- **CSS, raw path**: for all admissible component lists (`rawOk`) the bytes `writeRaw` writes (values with brackets,
+    `a=b`, `!ie`, …; `/` and `*` kept apart) are read as exactly the components -/
+theorem css_raw_retokenises : type_of% @Verif.Proofs.C09Css.css_raw_retokenises :=
+  @Verif.Proofs.C09Css.css_raw_retokenises
+
+/-- **CSS, raw path**: without the guard on neighbours it is false: `<` `!` `--x` is written `<!--x` (K-C09-CSS-3) -/
+theorem css_raw_retokenises_counterexample : type_of% @Verif.Proofs.C09Css.css_raw_retokenises_counterexample :=
+  @Verif.Proofs.C09Css.css_raw_retokenises_counterexample
+
 /-- **CSS, declaration minifier of the model**: whenever `minifyDeclaration` is defined, not on the raw path and chose
     admissible values, the bytes it writes read back as those values -/
 theorem css_declaration_retokenises : type_of% @Verif.Proofs.C09Css.css_declaration_retokenises :=
